@@ -154,6 +154,33 @@ func (m *M) check(b, route string, a Args, pre *snapshot, r *world.Result) {
 				lic = "sms"
 			}
 		}
+		// one-time credentials: the harness' own count of successful uses (C01 "unconsumed", C12)
+		once := ""
+		switch lic {
+		case "otp":
+			once = "otp|" + U + "|" + a.PW
+		case "remember":
+			once = "rm|" + pre.cook["rm"]
+		case "recover":
+			once = "recover|" + a.Token
+		case "totp", "sms":
+			if a.RCode != "" {
+				once = "reccode|" + U + "|" + a.RCode
+			} else if lic == "sms" {
+				once = fmt.Sprintf("smscode|%s|%d", a.Code, m.smsIssue[a.Code])
+			}
+		}
+		if once != "" {
+			if m.used == nil {
+				m.used = map[string]int{}
+			}
+			m.used[once]++
+			if m.used[once] > m.issued(once) {
+				what := fmt.Sprintf("one-time credential (%s) enabled a second successful login as %q", strings.SplitN(once, "|", 2)[0], U)
+				m.violate("C12", "reuse:"+strings.SplitN(once, "|", 2)[0], what, b)
+				m.violate("C01", "reuse:"+strings.SplitN(once, "|", 2)[0], what, b)
+			}
+		}
 		if lic == "" {
 			m.violate("C01", "route:"+route, fmt.Sprintf("browser %s became logged in as %q by a %s request that proved no valid credential of that user", b, U, route), b)
 		}
@@ -208,4 +235,13 @@ func (m *M) check(b, route string, a Args, pre *snapshot, r *world.Result) {
 			}
 		}
 	}
+}
+
+// issued: how many times the harness saw this exact one-time value issued (a recovery code or
+// OTP value may legitimately be issued again by a later generate / seed).
+func (m *M) issued(key string) int {
+	if n, ok := m.issuedN[key]; ok && n > 0 {
+		return n
+	}
+	return 1
 }
